@@ -85,6 +85,10 @@ def required_cells(tier):
         req += [f"minimiser|lin|static|{mode}", f"minimiser|grp|static|{mode}", f"minimiser|grp|dynamic|{mode}",
                 f"minimiser|grp|multi|{mode}"]
     req += ["minimiser|grp|sparse|ana", "minimiser|grp|sparse|def", "minimiser|lin|sparse|def"]
+    # residual weights (units of f): every judged weight with a sparse and with a dense Jacobian; the tiny ones at least run
+    for ws in ("1.000000e+00", "1.000000e-02", "1.000000e-03", "1.000000e-04"):
+        req += [f"minimiser-w|{ws}|sparseJ", f"minimiser-w|{ws}|denseJ"]
+    req += ["w|1.000000e-06", "w|1.000000e-08"]
     if tier == "thorough":
         req += ["iter|ceres|accepted:pred_red<=0", "iter|disney|accepted:pred_red<=0", "iter|ceres|rejected:actu_red<0",
                 "iter|disney|rejected:actu_red<0", "exit|0|at-max_iter", "exit|1|at-max_iter", "pred_red|<0"]
@@ -231,8 +235,13 @@ def validate(oc, traces, per_chunk, workdir, timeout):
                 b2 = dict(b)
                 b2["line"] = idx + 1
                 if begin:
+                    w = V.dequad(begin["w"])
+                    ratio = V.dequad(begin["ptol"]) / w
                     b2.update({"fam": begin["fam"], "mode": begin["mode"], "shape": begin["shape"], "strat": begin["strat"],
-                               "shared": 0 if begin["fresh"] else 1, "max_iter": begin["max_iter"]})
+                               "shared": 0 if begin["fresh"] else 1, "max_iter": begin["max_iter"], "w": w,
+                               "ptol": V.dequad(begin["ptol"]),
+                               # the Ptol test is not invariant to the units of f: ptol / w is what it sees
+                               "wclass": "ptol/w>=0.1" if ratio >= 0.0999 else "ptol/w<=1e-2"})
                 payload = dict(meta)
                 payload.update({"family": "optim", "group": group["group"] if group else None, "line": idx + 1,
                                 "event": {k: (V.dequad(x) if k != "g" else x) for k, x in json.loads(lines[idx]).items()}})
@@ -256,12 +265,21 @@ def sample_of(lines):
     return out
 
 
+def extra_known(oc):
+    """development aid (as in fam_fit): VERIF_KNOWN_EXTRA=<json file> adds open known-finding entries for this run only"""
+    p = os.environ.get("VERIF_KNOWN_EXTRA")
+    if p:
+        extra = json.load(open(p))
+        oc.known = {"open": list(oc.known.get("open", [])) + list(extra.get("open", [])), "fixed": oc.known.get("fixed", [])}
+
+
 def check(prop, tier, seed, replay=None):
     if prop != "C09":
         raise V.ToolFailure(f"fam_optim decides C09, not {prop}")
     check_hook()
     cfg = TIERS[tier]
     oc = V.Outcome(prop, tier, seed)
+    extra_known(oc)
     workdir = os.path.join(V.BUILD, "work", f"{prop}_{os.getpid()}")
     os.makedirs(workdir, exist_ok=True)
     try:
@@ -317,7 +335,7 @@ def check(prop, tier, seed, replay=None):
                 V.log(f"note: coverage cells not reached: {missing[:12]}")
         sig = {}
         for b, _ in oc.violations:
-            k = f"{b.get('clause')}|{b.get('stratum')}|fam={b.get('fam')}|strategy={'shared' if b.get('shared') else 'fresh'}"
+            k = f"{b.get('clause')}|{b.get('stratum')}|fam={b.get('fam')}|strategy={'shared' if b.get('shared') else 'fresh'}|w={b.get('w')}"
             sig[k] = sig.get(k, 0) + 1
         oc.extra["violation_signatures"] = dict(sorted(sig.items()))
         oc.extra["design_models"] = model_info
